@@ -92,6 +92,8 @@ def run_psd(key):
         tuple(key['lead']), key['dtk'], key['mask'], key['s'], key['t'], key['k'], key['neg'],
         key['normalize'], key['seed'])
     obs_c, exact = make_obs(seed, lead, D, T, kind)
+    amp = key.get('amp', 1.0)
+    obs_c = obs_c * amp
     nd = obs_c.ndim
     # move canonical axes (-2 sensor, -1 time) to positions s, t
     src_axes = list(range(nd - 2))
@@ -137,6 +139,8 @@ def run_psd(key):
     if src and (k - nd) < -2:
         want = np.moveaxis(want, -3, k)   # documented: sources first / at the mask's source position
     got = np.asarray(got)
+    if amp != 1.0:
+        got, want = got / amp ** 2, want / amp ** 2     # judged relative to the level of the data
     if exact and (not normalize or kind == 'none') and kind not in ('time_x1000', 'src_x1000'):
         bad = tol.mismatch(got, want, 1e-14, what='PSD (Gaussian-integer data)')
     else:
@@ -155,7 +159,7 @@ def run_psd(key):
     if kind.endswith('float') and normalize:
         # invariance to positive rescaling of a normalised mask
         try:
-            got2 = bf.get_power_spectral_density_matrix(obs, mask * 1000.0, **kw)
+            got2 = np.asarray(bf.get_power_spectral_density_matrix(obs, mask * 1000.0, **kw)) / amp ** 2
         except Exception as e:  # noqa
             return viol(f'rescaled mask raised {e!r}')
         nz = (mask_c.sum(-1) > 0)
@@ -177,6 +181,8 @@ def run_condition(key):
         if key['kind'] == 'rank1':
             v = A.cnormal(A.rng(seed, 'c10r1', idx, D), (D,))
             x[idx] = np.outer(v, v.conj())
+    amp = key['amp']
+    x = x * amp
     x.setflags(write=False)
     try:
         got = bf.condition_covariance(x, gamma)
@@ -185,7 +191,13 @@ def run_condition(key):
     want = np.zeros_like(x)
     for idx in np.ndindex(*lead):
         want[idx] = (x[idx] + gamma * np.trace(x[idx]) / D * np.eye(D)) / (1 + gamma)
-    bad = tol.mismatch(got, want, tol.TIGHT, what='condition_covariance')
+    if amp == 0:
+        if not np.array_equal(np.asarray(got), want):
+            return viol('condition_covariance of a zero matrix is not zero')
+        return ok(outcome='zero')
+    # compare relative to the level of the data
+    got, want, x = np.asarray(got) / amp, want / amp, x / amp
+    bad = tol.mismatch(got, want, tol.TIGHT, what=f'condition_covariance (data level {amp})')
     if bad:
         return viol(bad)
     t0, t1 = np.trace(x, axis1=-2, axis2=-1), np.trace(got, axis1=-2, axis2=-1)
@@ -223,8 +235,11 @@ def subchecks(tier, seed):
                                     for normalize in (True, False):
                                         if not thorough and len(lead) == 3 and (neg != normalize):
                                             continue
-                                        yield (lead, dtk, kind, s, t, k, neg, normalize, seed)
-    subs.append(Sub('psd_layouts', ('lead', 'dtk', 'mask', 's', 't', 'k', 'neg', 'normalize', 'seed'),
+                                        yield (lead, dtk, kind, s, t, k, neg, normalize, 1.0, seed)
+                                        if len(lead) <= 1 and neg and (thorough or dtk in (TRIPLES[2], TRIPLES[5])):
+                                            for amp in (1e-8, 1e8, 1e-100):
+                                                yield (lead, dtk, kind, s, t, k, neg, normalize, amp, seed)
+    subs.append(Sub('psd_layouts', ('lead', 'dtk', 'mask', 's', 't', 'k', 'neg', 'normalize', 'amp', 'seed'),
                     cases, run_psd,
                     bound=dict(leading_shapes=len(LEADS), triples=[list(t) for t in triples],
                                mask_kinds=list(kinds)), exhaustive=thorough))
@@ -234,7 +249,8 @@ def subchecks(tier, seed):
             for D in (1, 2, 3, 8):
                 for gamma in (0.0, 1e-6, 0.1, 10.0):
                     for kind in ('hpd', 'rank1'):
-                        yield (lead, D, gamma, kind, seed)
-    subs.append(Sub('condition_covariance', ('lead', 'D', 'gamma', 'kind', 'seed'), cond_cases,
+                        for amp in (1.0, 1e-12, 1e-30, 1e12, 0.0):
+                            yield (lead, D, gamma, kind, amp, seed)
+    subs.append(Sub('condition_covariance', ('lead', 'D', 'gamma', 'kind', 'amp', 'seed'), cond_cases,
                     run_condition))
     return subs
